@@ -8,7 +8,7 @@ vars == <<s, parts, phase>>
 EmitRes == IF "EMITRES" \in DOMAIN IOEnv THEN atoi(IOEnv.EMITRES) % EmitMod ELSE 0
 
 (* every class boundary: a z A Z 0 9 - . _ ~ + / = newline { @ and a non-ASCII lead byte pair *)
-TokenAlpha == {97, 122, 65, 90, 48, 57, 45, 46, 95, 126, 43, 47, 61, 10, 123, 64, 96, 91}
+TokenAlpha == {97, 122, 65, 90, 48, 57, 45, 46, 95, 126, 43, 47, 61, 10, 123, 64, 96, 91, 32}
 PartAlpha == {97, 49, 45, 65, 46, 95, 10}
 Strs(alpha, n) == UNION {[1..k -> alpha] : k \in 0..n}
 RidPrefixes == {<<114, 105, DOT>>, <<114, 73, DOT>>, <<114, 105>>, <<>>, <<120, 114, 105, DOT>>}
